@@ -38,8 +38,8 @@ GEN_RULE = (
 def plan(prop, tier):
     if prop == "C01":
         return explorer_plan(
-            "c01", tier, 2500, 120000, GEN_RULE + "; C01 oracle: allocator monitor x kernel-held region registry, quarantine poison check, stack-memory check; plus realmix: the same kind of poll/drop/teardown histories on the REAL io_uring of this machine (pipes and socket pairs, the harness writing to the other end decides when reads complete), every freed block quarantined with a poison pattern that a late kernel write would change; plus c06mt: futures dropped on worker threads while the ring thread consumes their completions",
-            ["drop:Single:in-flight", "drop:Multi:in-flight", ["drop:TwoStep:in-flight", "drop:TwoStep:between-two-completions"], "cqe:for-dropped-op", "simk_kernel_mem_writes", "simk_kernel_mem_reads", "mt-drop:workers=2"],
+            "c01", tier, 2500, 120000, GEN_RULE + "; C01 oracle: allocator monitor x kernel-held region registry, quarantine poison check, stack-memory check; plus realmix: the same kind of poll/drop/teardown histories on the REAL io_uring of this machine (pipes and socket pairs, the harness writing to the other end decides when reads complete), every freed block quarantined with a poison pattern that a late kernel write would change; plus c06mt: futures dropped on worker threads while the ring thread consumes their completions, every third schedule with the Ring dropped while the workers still poll (its sync-cancel interrupts them, they re-issue, the Ring's last kernel entries hand that to the kernel)",
+            ["drop:Single:in-flight", "drop:Multi:in-flight", ["drop:TwoStep:in-flight", "drop:TwoStep:between-two-completions"], "cqe:for-dropped-op", "simk_kernel_mem_writes", "simk_kernel_mem_reads", "mt-drop:workers=2", "mt-drop:ring-dropped-early"],
             extra_quick=[gen_job("c06mt", "native-debug", 500, 8, timeout=400), gen_job("realmix", "native-debug", 1000, 8, timeout=600)],
             extra_thorough=[gen_job("c01", "asan", 3000, 16, timeout=1200), gen_job("c01", "miri", 12, 16, timeout=1500), gen_job("realmix", "native-debug", 30000, 16, timeout=3000), gen_job("realmix", "native-release", 30000, 16, timeout=3000), gen_job("realmix", "asan", 5000, 16, timeout=3000),
                             gen_job("c06mt", "native-debug", 8000, 16, timeout=1800), gen_job("c06mt", "asan", 500, 16, timeout=1800), gen_job("c06free", "tsan", 60, 8, timeout=3000), gen_job("c06free", "miri", 6, 16, timeout=3000)],
@@ -65,7 +65,7 @@ def plan(prop, tier):
     if prop == "C06":
         return explorer_plan(
             "c06", tier, 2500, 120000, GEN_RULE + "; C06 oracle: cancel requests vs drops (target, count, room), allocator exactly-once and leak ledger after teardown; plus realmix: histories on the real kernel with the leak ledger after all objects were dropped in a random order; plus c06mt: baton-scheduled worker threads dropping in-flight futures while the ring thread consumes their completions (leak/double-free ledger over the whole schedule)",
-            ["drop:Single:in-flight", "drop:Single:never-polled", "drop:Single:finished", "drop:Multi:multishot-mid-stream", ["drop:TwoStep:between-two-completions", "drop:TwoStep:in-flight"], "drop:Single:queued-not-consumed", "simk_cancels", "mt-drop:workers=2", "mt-drop:workers=3"],
+            ["drop:Single:in-flight", "drop:Single:never-polled", "drop:Single:finished", "drop:Multi:multishot-mid-stream", ["drop:TwoStep:between-two-completions", "drop:TwoStep:in-flight"], "drop:Single:queued-not-consumed", "simk_cancels", "mt-drop:workers=2", "mt-drop:workers=3", "mt-drop:ring-dropped-early"],
             extra_quick=[gen_job("c06mt", "native-debug", 500, 8, timeout=400), gen_job("c06free", "miri", 2, 4, timeout=900), gen_job("realmix", "native-debug", 1000, 8, timeout=600)],
             extra_thorough=[gen_job("c06", "asan", 3000, 16, timeout=1200, lsan=True), gen_job("realmix", "native-debug", 30000, 16, timeout=3000), gen_job("realmix", "native-release", 30000, 16, timeout=3000),
                             gen_job("c06mt", "native-debug", 8000, 16, timeout=1800), gen_job("c06mt", "asan", 500, 16, timeout=1800), gen_job("c06free", "tsan", 60, 8, timeout=3000), gen_job("c06free", "miri", 6, 16, timeout=3000)],
@@ -148,17 +148,17 @@ def plan(prop, tier):
         return dict(jobs=jobs, level="fault_enumeration", rule=rule, floor_cells=["refuse:none", "refuse:setup", "refuse:feature-2", "refuse:feature-4", "refuse:feature-8", "refuse:feature-128", "refuse:mmap-1", "refuse:mmap-2", "refuse:mmap-3", "refuse:register", "result:ok", "result:err", "disabled-then-enabled", "granted-sq:4"],
                     floor_evaluations=60000, exhaustive=True, assumptions=SIMK_ASSUMPTIONS + ["the madvise(MADV_DONTFORK) failure branch of the real mmap wrapper is bypassed by the hook and not covered"], also=[])
     if prop == "C08":
-        rule = ("(a) random single-threaded histories with single-shot and multishot pool reads/receives, kept/edited (remove/truncate/clear/extend before release)/dropped ReadBufs, operations abandoned in flight (pools of 1-8 buffers): pool ledger in the simulated kernel (every buffer-ring entry a10 publishes is checked: id handed out, own address/length, tail-head <= size), checksums of held ReadBufs, conservation at the end; "
+        rule = ("(a) random single-threaded histories with single-shot and multishot pool reads/receives, kept/edited (remove/truncate/clear/extend before release)/re-used for another read (also after being emptied)/dropped ReadBufs, operations abandoned in flight (pools of 1-8 buffers): pool ledger in the simulated kernel (every buffer-ring entry a10 publishes is checked: id handed out, own address/length, tail-head <= size), checksums of held ReadBufs, conservation at the end; "
                 "(b) marathon of 70000 read/release cycles so the 16-bit ring tail wraps; (c) baton-scheduler schedules: 2-4 threads releasing all buffers of a pool concurrently while a simulated kernel thread audits the ring at every scheduling point (incl. before the tail store); distinct = event-trace / switch-sequence hash")
         if tier == "quick":
             jobs = [gen_job("c08", "native-debug", 2500, 8), gen_job("c08wrap", "native-debug", 1, 2, timeout=600), gen_job("c08mt", "native-debug", 400, 8, timeout=600)]
         else:
             jobs = [gen_job("c08", "native-debug", 40000, 16, timeout=1800), gen_job("c08", "native-release", 40000, 16, timeout=1800), gen_job("c08wrap", "native-release", 2, 8, timeout=1800, params={"cycles": "200000"}),
                     gen_job("c08mt", "native-debug", 6000, 16, timeout=3000), gen_job("c08", "asan", 3000, 16, timeout=1800), gen_job("c08", "miri", 10, 16, timeout=2400), gen_job("c08free", "tsan", 30, 8, timeout=3000), gen_job("c08free", "miri", 3, 16, timeout=3000)]
-        return dict(jobs=jobs, level="exploration", rule=rule, floor_cells=["kind:ReadPool", "kind:MultishotRead", "kind:MultishotRecv", "simk_pbuf_selects", "simk_pbuf_returns", "marathon_tail_wraps", "release:pool=1", "release:pool=8", "drop:Multi:multishot-mid-stream"],
+        return dict(jobs=jobs, level="exploration", rule=rule, floor_cells=["kind:ReadPool", "kind:ReadPoolReuse", "kind:MultishotRead", "kind:MultishotRecv", "simk_pbuf_selects", "simk_pbuf_returns", "marathon_tail_wraps", "release:pool=1", "release:pool=8", "drop:Multi:multishot-mid-stream"],
                     floor_evaluations=5000, assumptions=SIMK_ASSUMPTIONS, also=[])
     if prop == "C11":
-        rule = ("baton-scheduler schedules of one ring thread calling Ring::poll(None) against 1-3 threads calling SubmissionQueue::wake, families: S1 concurrent wakes, S2 wakes completed before the poll starts, S3 loop where wake i+1 is issued only after poll i returned; "
+        rule = ("baton-scheduler schedules of one ring thread calling Ring::poll(None) against 1-3 threads calling SubmissionQueue::wake, families: S1 concurrent wakes, S2 wakes completed before the poll starts, S3 loop where wake i+1 is issued only after poll i returned, S4 the first poll finds completions ready and the wakes are issued once it is running (a marker set at the first scheduling point inside a10's poll): the second poll must return; "
                 "default, kernel-thread (simulated SQPOLL thread) and single-issuer rings (IORING_REGISTER_SEND_MSG_RING path), optionally with a full submission queue when the wake message must be queued; oracle: a poll blocked in the simulated kernel with nothing to deliver once every wake() returned (no runnable thread left) is a lost wake-up; wake() after the Ring was dropped must be harmless; distinct = switch-sequence hash + configuration; "
                 "plus the real kernel (scenario c11real): a thread blocked in Ring::poll(2 s) and 1-2 threads calling wake() after a random spin, 20-80 rounds per ring, default/single-issuer/kernel-thread rings; a poll that times out is followed by a second one and only two expired polls after the wake() calls returned count as a lost wake-up")
         if tier == "quick":
@@ -166,7 +166,7 @@ def plan(prop, tier):
         else:
             jobs = [gen_job("c11", "native-debug", 40000, 16, timeout=3000), gen_job("c11", "native-release", 40000, 16, timeout=3000), gen_job("c11", "asan", 2000, 16, timeout=3000), gen_job("c11free", "tsan", 200, 8, timeout=3000), gen_job("c11free", "miri", 8, 16, timeout=3000),
                     gen_job("c11real", "native-debug", 1500, 16, timeout=3000), gen_job("c11real", "native-release", 1500, 16, timeout=3000)]
-        return dict(jobs=jobs, level="exploration", rule=rule, floor_cells=["family:S1-concurrent", "family:S2-wake-before-poll", "family:S3-poll-loop", "ring:default", "ring:kernel-thread", "ring:single-issuer", "queue-full-at-wake", "wake-after-ring-dropped", "sched_kernel_blocks", "simk_msg_rings", "real_wake_rounds"],
+        return dict(jobs=jobs, level="exploration", rule=rule, floor_cells=["family:S1-concurrent", "family:S2-wake-before-poll", "family:S3-poll-loop", "family:S4-wake-during-busy-poll", "ring:default", "ring:kernel-thread", "ring:single-issuer", "queue-full-at-wake", "wake-after-ring-dropped", "sched_kernel_blocks", "simk_msg_rings", "real_wake_rounds"],
                     floor_evaluations=2000, assumptions=SIMK_ASSUMPTIONS + ["liveness is judged in the bounded form 'a state in which no thread can run' under the scheduler, not by wall-clock time"], also=[])
     if prop == "C16":
         rule = ("(a) pure round trip storage -> bytes a10 hands to the kernel -> init with the length the kernel reports for that family (model: 16/28, path strlen+1 with and without NUL, unnamed 2), the rest of the storage filled with garbage: random and edge IPv4/IPv6 addresses, ports, flow labels, scope ids, Unix path names of every length 1..107; "
